@@ -1,52 +1,963 @@
+// c08e: C08, schedule half, end to end on the federation lab.  For generated (configuration,
+// universe, operation) whose REAL plan has at least two concurrently runnable subgraph requests,
+// every subgraph response is held by a gate and the responses are released in enumerated
+// completion orders.  Clauses (all on the implementation):
+//
+//	response_order_independent     data bytes identical in every order, equal to the ungated run, tree-equal to Lab.Mono; errors the same multiset
+//	request_set_order_independent  the multiset of (Ident, variables) is the same in every order
+//	issued_after_dependencies      data flow: a request arrives only after a response carrying each value of its representations was released
+//	tree_respected_at_runtime      arrival/release log against DependsOnFetchIDs of the dumped real plan
+//	exactly_once                   the dumped tree against the planner's raw fetch list (modulo dedup / MultiFetch merges)
+//	deps_cover_reads               the plan hypothesis of coq/C08/ProofsSchedule.v evaluated on (plan, log)
+//	writes_compatible              the other one
+//
+// and the dumped trees are written in the line format of ocaml/c08/driver.ml so that the extracted
+// respects_deps_b / exactly_once_b run on plans the real planner produced.
+//
+//	c08e gen  -seed S -n N [-from I] [-knobs K] [-tier quick|thorough] [-settle us] -out results.jsonl -trees trees.cases
+//	c08e one  -seed S -index I [-knobs K] [-exact 1] [-mf 0|1] [-sched 0|1] [-v 1]
+//	c08e corpus -in corpus.tsv -out results.jsonl -trees trees.cases
 package main
 
 import (
+	"encoding/json"
 	"fmt"
 	"os"
+	"sort"
+	"strings"
+	"time"
 
 	"gvh/common"
 	"gvh/e2e"
 	"gvh/fedlab"
 )
 
+type optSet struct{ MF, Sched bool }
+
+func (o optSet) String() string { return fmt.Sprintf("mf=%s,sched=%s", common.B(o.MF), common.B(o.Sched)) }
+func (o optSet) mode() string {
+	switch {
+	case o.Sched && o.MF:
+		return "m"
+	case o.Sched:
+		return "s"
+	default:
+		return "w"
+	}
+}
+
+type outcome struct {
+	Seed       uint64         `json:"seed"`
+	Index      int            `json:"index"`
+	Knobs      string         `json:"knobs"`
+	Opt        string         `json:"opt"`
+	Status     string         `json:"status"` // checked | sequential | planerror | laberror | engineerror
+	Detail     string         `json:"detail,omitempty"`
+	Tree       string         `json:"tree,omitempty"`
+	Raw        string         `json:"raw,omitempty"`
+	Op         string         `json:"op,omitempty"`
+	NReq       int            `json:"nreq"`
+	NFetch     int            `json:"nfetch"`
+	MaxPar     int            `json:"maxpar"`
+	MaxHeld    int            `json:"maxheld"`
+	Orders     int            `json:"orders"`
+	Runs       int            `json:"runs"`
+	Exhaustive bool           `json:"exhaustive"`
+	Diverged   int            `json:"diverged"`
+	Stats      map[string]int `json:"stats"`
+	Violations []string       `json:"violations,omitempty"`
+	Orderlog   []string       `json:"orderlog,omitempty"`
+	WallMs     int64          `json:"wall_ms"`
+	Rerun      string         `json:"rerun"`
+}
+
+type config struct {
+	maxDFS, maxRand int
+	settle          time.Duration
+	verbose         bool
+}
+
+// ---------------------------------------------------------------- data-flow providers
+
+type objInfo struct {
+	tn  string
+	obj *fedlab.J
+}
+
+func collectObjs(j *fedlab.J, out *[]objInfo) {
+	if j == nil {
+		return
+	}
+	switch j.Kind {
+	case fedlab.JArr:
+		for _, x := range j.Items {
+			collectObjs(x, out)
+		}
+	case fedlab.JObj:
+		tn := ""
+		if t := j.Get("__typename"); t != nil && t.Kind == fedlab.JStr {
+			tn = t.Raw
+		}
+		*out = append(*out, objInfo{tn, j})
+		for _, m := range j.Members {
+			collectObjs(m.Val, out)
+		}
+	}
+}
+
+// subJSON: v is contained in w (objects: every member of v is contained in the member of w).
+func subJSON(v, w *fedlab.J) bool {
+	if v == nil || w == nil {
+		return false
+	}
+	if v.Kind != w.Kind {
+		return false
+	}
+	switch v.Kind {
+	case fedlab.JObj:
+		for _, m := range v.Members {
+			if !subJSON(m.Val, w.Get(m.Key)) {
+				return false
+			}
+		}
+		return true
+	case fedlab.JArr:
+		if len(v.Items) != len(w.Items) {
+			return false
+		}
+		for i := range v.Items {
+			if !subJSON(v.Items[i], w.Items[i]) {
+				return false
+			}
+		}
+		return true
+	default:
+		return v.Equal(w)
+	}
+}
+
+type need struct {
+	what      string   // "rep i member k"
+	providers []string // request keys whose response carries the value
+}
+
+// needsOf: for every (representation, member) of r the requests of the fault-free run whose
+// response contains an object of that type with that member value.
+func needsOf(r *fedlab.Request, all []*fedlab.Request, objs map[*fedlab.Request][]objInfo) (needs []need, unexplained []string) {
+	var repLists [][]*fedlab.J
+	if r.Variables != nil {
+		for _, m := range r.Variables.Members {
+			if strings.HasPrefix(m.Key, "representations") && m.Val.Kind == fedlab.JArr {
+				repLists = append(repLists, m.Val.Items)
+			}
+		}
+	}
+	for _, reps := range repLists {
+		for i, rep := range reps {
+			if rep == nil || rep.Kind != fedlab.JObj {
+				continue
+			}
+			tn := ""
+			if t := rep.Get("__typename"); t != nil {
+				tn = t.Raw
+			}
+			for _, m := range rep.Members {
+				if m.Key == "__typename" {
+					continue
+				}
+				if m.Val.Kind == fedlab.JNull {
+					continue // a null required value is the absence of a value
+				}
+				var prov, provAny []string
+				for _, d := range all {
+					if d == r {
+						continue
+					}
+					named, any := false, false
+					for _, o := range objs[d] {
+						if o.tn != "" && o.tn != tn {
+							continue
+						}
+						if subJSON(m.Val, o.obj.Get(m.Key)) {
+							named = true
+							break
+						}
+						if !any {
+							for _, om := range o.obj.Members {
+								if subJSON(m.Val, om.Val) {
+									any = true
+									break
+								}
+							}
+						}
+					}
+					if named {
+						prov = append(prov, e2e.ReqKey(d))
+					} else if any {
+						provAny = append(provAny, e2e.ReqKey(d))
+					}
+				}
+				what := fmt.Sprintf("%s rep %d %s=%s", tn, i, m.Key, fedlab.Trunc(m.Val.String(), 40))
+				if len(prov) == 0 {
+					prov = provAny
+				}
+				if len(prov) == 0 {
+					unexplained = append(unexplained, what)
+					continue
+				}
+				needs = append(needs, need{what, prov})
+			}
+		}
+	}
+	return
+}
+
+// ---------------------------------------------------------------- one (case, option set)
+
+type env struct {
+	exec *fedlab.ExecServer
+	cfg  config
+}
+
+func errMultiset(j *fedlab.J) []string {
+	var out []string
+	if j != nil && j.Kind == fedlab.JArr {
+		for _, e := range j.Items {
+			out = append(out, e.String())
+		}
+	}
+	sort.Strings(out)
+	return out
+}
+
+func eqStrings(a, b []string) bool {
+	if len(a) != len(b) {
+		return false
+	}
+	for i := range a {
+		if a[i] != b[i] {
+			return false
+		}
+	}
+	return true
+}
+
+func short(s string) string { return fedlab.Trunc(s, 160) }
+
+func shortKey(k string) string {
+	parts := strings.SplitN(k, "|", 3)
+	if len(parts) == 3 {
+		return parts[0] + ":" + fedlab.Trunc(parts[1], 60) + ":" + fedlab.Trunc(parts[2], 80)
+	}
+	return fedlab.Trunc(k, 120)
+}
+
+func reachable(byID map[int]*e2e.Fetch, from int) map[int]bool {
+	seen := map[int]bool{}
+	var walk func(id int)
+	walk = func(id int) {
+		f := byID[id]
+		if f == nil {
+			return
+		}
+		for _, d := range f.Deps {
+			if !seen[d] {
+				seen[d] = true
+				walk(d)
+			}
+		}
+	}
+	walk(from)
+	return seen
+}
+
+func (e *env) checkCase(c *fedlab.Case, lab *fedlab.Lab, pl *e2e.Planner, opt optSet, rnd *common.Rand) *outcome {
+	t0 := time.Now()
+	o := &outcome{Seed: c.Seed, Index: c.Index, Knobs: c.Knobs.String(), Opt: opt.String(), Stats: map[string]int{}, Op: c.Op.Text()}
+	o.Rerun = fmt.Sprintf("harness/bin/c08e one -seed %d -index %d -knobs %s -exact 1 -mf %d -sched %d -v 1", c.Seed, c.Index, c.Knobs.String(), b2i(opt.MF), b2i(opt.Sched))
+	defer func() { o.WallMs = time.Since(t0).Milliseconds() }()
+	viol := func(clause, format string, a ...any) {
+		if len(o.Violations) < 12 {
+			o.Violations = append(o.Violations, clause+" "+fmt.Sprintf(format, a...))
+		}
+	}
+	opText, opName, vars := c.Op.Text(), c.Op.Name, []byte(c.Op.VariablesJSON())
+
+	tree, raw, err := pl.PlanWithRaw(opText, opName, vars)
+	if err != nil {
+		o.Status, o.Detail = "planerror", short(err.Error())
+		return o
+	}
+	o.Tree, o.MaxPar = tree.Sexp(), tree.MaxParallel()
+	fetches := tree.Fetches()
+	o.NFetch = len(fetches)
+	var rawParts []string
+	for _, f := range raw {
+		rawParts = append(rawParts, fmt.Sprintf("%d:%s", f.ID, joinInts(f.Deps)))
+	}
+	o.Raw = strings.Join(rawParts, " ")
+
+	base := lab.Run(opText, vars, &fedlab.RunOptions{OperationName: opName})
+	if base.Err != nil {
+		o.Status, o.Detail = "engineerror", short(base.Err.Error())
+		return o
+	}
+	o.NReq = len(base.Requests)
+	mono, err := lab.Mono(opText, opName, vars)
+	if err != nil {
+		o.Status, o.Detail = "laberror", short(err.Error())
+		return o
+	}
+	for _, r := range base.Requests {
+		if r.ExecError != "" || r.ParseError != "" {
+			o.Status, o.Detail = "laberror", short(r.ExecError+r.ParseError)
+			return o
+		}
+	}
+
+	// ---- static clauses on the dumped plan
+	byID := map[int]*e2e.Fetch{}
+	byIdent := map[string][]*e2e.Fetch{}
+	for _, f := range fetches {
+		if byID[f.ID] != nil {
+			viol("exactly_once", "fetch id %d twice in the tree %s", f.ID, o.Tree)
+		}
+		byID[f.ID] = f
+		id := f.Subgraph + "|" + f.Query
+		byIdent[id] = append(byIdent[id], f)
+	}
+	e.checkExactlyOnce(raw, fetches, viol)
+
+	if o.MaxPar < 2 || len(base.Requests) < 2 {
+		o.Status = "sequential"
+		// still: the ungated run against the monolith (cheap, and it anchors the baseline)
+		if !base.Data.EqualUnordered(mono.Data) {
+			viol("response_order_independent", "ungated run differs from Lab.Mono: %s", base.Data.FirstDiffUnordered(mono.Data, "data"))
+		}
+		return o
+	}
+	o.Status = "checked"
+
+	// ---- baseline facts
+	baseKeys := e2e.KeyMultiset(base.Requests)
+	baseData := ""
+	if base.Data != nil {
+		baseData = base.Data.String()
+	}
+	baseErrs := errMultiset(base.Errors)
+	if !base.Data.EqualUnordered(mono.Data) {
+		viol("response_order_independent", "ungated run differs from Lab.Mono: %s", base.Data.FirstDiffUnordered(mono.Data, "data"))
+	}
+	if (len(baseErrs) > 0) != (mono.NErrors > 0) {
+		viol("response_order_independent", "ungated run has %d errors, Lab.Mono %d", len(baseErrs), mono.NErrors)
+	}
+	objs := map[*fedlab.Request][]objInfo{}
+	for _, r := range base.Requests {
+		if j, err := fedlab.ParseJSON(r.Response); err == nil {
+			var os []objInfo
+			collectObjs(j.Get("data"), &os)
+			objs[r] = os
+		}
+	}
+	needs := map[string][]need{}
+	for _, r := range base.Requests {
+		ns, un := needsOf(r, base.Requests, objs)
+		needs[e2e.ReqKey(r)] = ns
+		for _, u := range un {
+			viol("issued_after_dependencies", "value of unknown origin in a request to %s: %s", r.Subgraph, u)
+		}
+		o.Stats["dataflow_needs"] += len(ns)
+	}
+	e.checkPlanHypotheses(o, base.Requests, needs, byID, byIdent, viol)
+
+	// ---- gated runs
+	checkRun := func(g *e2e.GateRun) {
+		o.Orders++
+		if g.Diverged {
+			o.Diverged++
+		}
+		res := g.Result
+		if res == nil {
+			viol("response_order_independent", "gated run returned nothing")
+			return
+		}
+		order := make([]string, len(g.Order))
+		for i, k := range g.Order {
+			order[i] = shortKey(k)
+		}
+		ordTxt := strings.Join(order, " < ")
+		if e.cfg.verbose {
+			o.Orderlog = append(o.Orderlog, ordTxt)
+		}
+		if res.Err != nil {
+			viol("response_order_independent", "gated run failed: %s (order %s)", short(res.Err.Error()), ordTxt)
+			return
+		}
+		data := ""
+		if res.Data != nil {
+			data = res.Data.String()
+		}
+		if data != baseData {
+			if res.Data.EqualUnordered(base.Data) {
+				viol("response_order_independent/bytes", "data bytes differ (same tree) under order %s", ordTxt)
+			} else {
+				viol("response_order_independent", "data differs from the ungated run at %s under order %s", res.Data.FirstDiffUnordered(base.Data, "data"), ordTxt)
+			}
+		}
+		if es := errMultiset(res.Errors); !eqStrings(es, baseErrs) {
+			viol("response_order_independent/errors", "errors %v vs ungated %v under order %s", es, baseErrs, ordTxt)
+		}
+		// request multiset (single flight may merge two identical concurrent requests)
+		keys := e2e.KeyMultiset(res.Requests)
+		for k, n := range keys {
+			if baseKeys[k] == 0 {
+				viol("request_set_order_independent", "request only under order %s: %s", ordTxt, shortKey(k))
+			} else if baseKeys[k] != n {
+				o.Stats["singleflight_count_differs"]++
+			}
+		}
+		for k := range baseKeys {
+			if keys[k] == 0 {
+				viol("request_set_order_independent", "request missing under order %s: %s", ordTxt, shortKey(k))
+			}
+		}
+		// timing clauses
+		relAt := map[string]time.Time{}    // key -> earliest release
+		relIdent := map[string]time.Time{} // ident -> earliest release
+		held := 0
+		for _, ev := range g.Events {
+			if ev.Released.IsZero() {
+				continue
+			}
+			if t, ok := relAt[ev.Key]; !ok || ev.Released.Before(t) {
+				relAt[ev.Key] = ev.Released
+			}
+			id := ev.Req.Ident()
+			if t, ok := relIdent[id]; !ok || ev.Released.Before(t) {
+				relIdent[id] = ev.Released
+			}
+		}
+		for _, ch := range g.Choices {
+			if len(ch.Alts) > held {
+				held = len(ch.Alts)
+			}
+		}
+		if held > o.MaxHeld {
+			o.MaxHeld = held
+		}
+		for _, ev := range g.Events {
+			arr := ev.Req.Arrived
+			for _, nd := range needs[ev.Key] {
+				ok := false
+				for _, p := range nd.providers {
+					if t, has := relAt[p]; has && t.Before(arr) {
+						ok = true
+						break
+					}
+				}
+				o.Stats["dataflow_checks"]++
+				if !ok {
+					viol("issued_after_dependencies", "request %s arrived before any response carrying %s was released (order %s)", shortKey(ev.Key), nd.what, ordTxt)
+				}
+			}
+			cands := byIdent[ev.Req.Ident()]
+			if len(cands) == 0 {
+				viol("tree_respected_at_runtime", "request matches no fetch of the dumped plan: %s", shortKey(ev.Key))
+				continue
+			}
+			if len(cands) > 1 {
+				o.Stats["ambiguous_fetch_match"]++
+			}
+			okAny, why := false, ""
+			for _, f := range cands {
+				ok := true
+				for _, d := range f.Deps {
+					df := byID[d]
+					if df == nil {
+						continue // dependency outside the tree constrains nothing
+					}
+					t, has := relIdent[df.Subgraph+"|"+df.Query]
+					if !has {
+						// is the dependency's request still to come in this run?
+						continue
+					}
+					o.Stats["tree_dep_checks"]++
+					if !t.Before(arr) {
+						ok = false
+						why = fmt.Sprintf("fetch %d depends on %d, whose response was released %v after the request arrived", f.ID, d, t.Sub(arr))
+					}
+				}
+				if ok {
+					okAny = true
+					break
+				}
+			}
+			if !okAny {
+				viol("tree_respected_at_runtime", "%s (order %s, tree %s)", why, ordTxt, o.Tree)
+			}
+		}
+		// a dependency whose request shows up only AFTER its dependant arrived
+		arrIdent := map[string]time.Time{}
+		for _, ev := range g.Events {
+			id := ev.Req.Ident()
+			if t, ok := arrIdent[id]; !ok || ev.Req.Arrived.Before(t) {
+				arrIdent[id] = ev.Req.Arrived
+			}
+		}
+		for _, f := range fetches {
+			fa, ok := arrIdent[f.Subgraph+"|"+f.Query]
+			if !ok || len(byIdent[f.Subgraph+"|"+f.Query]) > 1 {
+				continue
+			}
+			for _, d := range f.Deps {
+				df := byID[d]
+				if df == nil || len(byIdent[df.Subgraph+"|"+df.Query]) > 1 {
+					continue
+				}
+				if da, ok := arrIdent[df.Subgraph+"|"+df.Query]; ok && !da.Before(fa) {
+					viol("tree_respected_at_runtime", "fetch %d arrived before its dependency %d arrived (order %s)", f.ID, d, ordTxt)
+				}
+			}
+		}
+	}
+	runWith := func(prefix []string, pick e2e.Picker) *e2e.GateRun {
+		o.Runs++
+		return e2e.RunGated(lab, opText, opName, vars, prefix, pick, e.cfg.settle, len(base.Requests))
+	}
+	seen := map[string]bool{}
+	visit := func(g *e2e.GateRun) {
+		if seen[g.Signature()] {
+			return
+		}
+		seen[g.Signature()] = true
+		checkRun(g)
+	}
+	_, ex := e2e.Explore(e.cfg.maxDFS, runWith, visit)
+	o.Exhaustive = ex
+	if !ex {
+		for i := 0; i < e.cfg.maxRand; i++ {
+			g := runWith(nil, func(step int, alts []string) int { return rnd.Pick(len(alts)) })
+			visit(g)
+		}
+	}
+	return o
+}
+
+func b2i(b bool) int {
+	if b {
+		return 1
+	}
+	return 0
+}
+
+func joinInts(xs []int) string {
+	s := make([]string, len(xs))
+	for i, x := range xs {
+		s[i] = fmt.Sprint(x)
+	}
+	return strings.Join(s, ",")
+}
+
+// exactly_once: every raw fetch of the planner is a leaf of the tree, or merged into one
+// (MergedFetchIDs), or a duplicate (same subgraph, query, path) of a raw fetch that is; and the
+// tree has no leaf the planner did not produce.
+func (e *env) checkExactlyOnce(raw []*e2e.Fetch, leaves []*e2e.Fetch, viol func(string, string, ...any)) {
+	where := map[int]int{}
+	for _, f := range leaves {
+		where[f.ID]++
+		for _, m := range f.Merged {
+			if m != f.ID {
+				where[m]++
+			}
+		}
+	}
+	rawIDs := map[int]*e2e.Fetch{}
+	for _, f := range raw {
+		rawIDs[f.ID] = f
+	}
+	for _, f := range raw {
+		switch where[f.ID] {
+		case 1:
+		case 0:
+			dup := false
+			for _, g := range raw {
+				if g.ID != f.ID && where[g.ID] > 0 && g.Subgraph == f.Subgraph && g.Query == f.Query && g.Path == f.Path {
+					dup = true
+				}
+			}
+			if !dup {
+				viol("exactly_once", "planned fetch %d (%s %q) is not in the tree", f.ID, f.Subgraph, f.Path)
+			}
+		default:
+			viol("exactly_once", "planned fetch %d appears %d times in the tree", f.ID, where[f.ID])
+		}
+	}
+	for _, f := range leaves {
+		if rawIDs[f.ID] == nil {
+			viol("exactly_once", "tree leaf %d is not a planned fetch", f.ID)
+		}
+	}
+}
+
+// entityKey identifies the entity a representation denotes (type + id when present).
+func entityKey(rep *fedlab.J) string {
+	if rep == nil || rep.Kind != fedlab.JObj {
+		return ""
+	}
+	tn := ""
+	if t := rep.Get("__typename"); t != nil {
+		tn = t.Raw
+	}
+	if id := rep.Get("id"); id != nil {
+		return tn + "#" + id.String()
+	}
+	return ""
+}
+
+func commonMembersAgree(a, b *fedlab.J, path string) string {
+	if a == nil || b == nil {
+		return ""
+	}
+	if a.Kind == fedlab.JObj && b.Kind == fedlab.JObj {
+		for _, m := range a.Members {
+			if w := b.Get(m.Key); w != nil {
+				if d := commonMembersAgree(m.Val, w, path+"."+m.Key); d != "" {
+					return d
+				}
+			}
+		}
+		return ""
+	}
+	if a.Kind == fedlab.JArr && b.Kind == fedlab.JArr && len(a.Items) == len(b.Items) {
+		for i := range a.Items {
+			if d := commonMembersAgree(a.Items[i], b.Items[i], fmt.Sprintf("%s[%d]", path, i)); d != "" {
+				return d
+			}
+		}
+		return ""
+	}
+	if !a.Equal(b) {
+		return path + ": " + fedlab.Trunc(a.String(), 60) + " vs " + fedlab.Trunc(b.String(), 60)
+	}
+	return ""
+}
+
+// checkPlanHypotheses evaluates the two hypotheses of completion_order_irrelevant on the real
+// plan and the fault-free request log:
+//
+//	deps_cover_reads  every value a request read (a member of a representation) was written by a
+//	                  fetch in deps*(f) (one of the responses carrying it belongs to such a fetch)
+//	writes_compatible two fetches unordered by the dependency relation that write the same entity
+//	                  at the same path agree on every common member
+func (e *env) checkPlanHypotheses(o *outcome, reqs []*fedlab.Request, needs map[string][]need, byID map[int]*e2e.Fetch, byIdent map[string][]*e2e.Fetch, viol func(string, string, ...any)) {
+	fetchOfKey := map[string][]*e2e.Fetch{}
+	for _, r := range reqs {
+		fetchOfKey[e2e.ReqKey(r)] = byIdent[r.Ident()]
+	}
+	for _, r := range reqs {
+		cands := byIdent[r.Ident()]
+		if len(cands) != 1 {
+			continue
+		}
+		f := cands[0]
+		anc := reachable(byID, f.ID)
+		for _, nd := range needs[e2e.ReqKey(r)] {
+			ok := false
+			for _, p := range nd.providers {
+				for _, g := range fetchOfKey[p] {
+					if anc[g.ID] {
+						ok = true
+					}
+				}
+			}
+			o.Stats["deps_cover_reads_checks"]++
+			if !ok {
+				viol("deps_cover_reads", "fetch %d reads %s, which no fetch in deps*(%d)=%v delivers (tree %s)", f.ID, nd.what, f.ID, keysOf(anc), o.Tree)
+			}
+		}
+	}
+	type ent struct {
+		key string
+		obj *fedlab.J
+	}
+	entsOf := func(r *fedlab.Request) []ent {
+		j, err := fedlab.ParseJSON(r.Response)
+		if err != nil {
+			return nil
+		}
+		data := j.Get("data")
+		if data == nil || data.Kind != fedlab.JObj {
+			return nil
+		}
+		var out []ent
+		if !r.IsEntityFetch {
+			return []ent{{"<root>", data}}
+		}
+		for _, m := range data.Members {
+			// _entities, or fN: _entities of a multi fetch (representations_fN)
+			repsName := "representations"
+			if m.Key != "_entities" {
+				repsName = "representations_" + m.Key
+			}
+			var reps []*fedlab.J
+			if r.Variables != nil {
+				if rv := r.Variables.Get(repsName); rv != nil {
+					reps = rv.Items
+				}
+			}
+			if m.Val.Kind != fedlab.JArr || len(reps) != len(m.Val.Items) {
+				continue
+			}
+			for i, it := range m.Val.Items {
+				if k := entityKey(reps[i]); k != "" && it.Kind == fedlab.JObj {
+					out = append(out, ent{k, it})
+				}
+			}
+		}
+		return out
+	}
+	for i := 0; i < len(reqs); i++ {
+		for j := i + 1; j < len(reqs); j++ {
+			a, b := byIdent[reqs[i].Ident()], byIdent[reqs[j].Ident()]
+			if len(a) != 1 || len(b) != 1 || a[0] == b[0] {
+				continue
+			}
+			f, g := a[0], b[0]
+			if reachable(byID, f.ID)[g.ID] || reachable(byID, g.ID)[f.ID] {
+				continue
+			}
+			if f.Path != g.Path {
+				if strings.HasPrefix(f.Path+".", g.Path+".") || strings.HasPrefix(g.Path+".", f.Path+".") || f.Path == "" || g.Path == "" {
+					o.Stats["writes_prefix_related_unordered"]++
+				}
+				if !(f.Kind == "multi" || g.Kind == "multi") {
+					continue
+				}
+			}
+			o.Stats["writes_compatible_pairs"]++
+			ea, eb := entsOf(reqs[i]), entsOf(reqs[j])
+			for _, x := range ea {
+				for _, y := range eb {
+					if x.key == y.key && (x.key != "<root>" || (f.Path == "" && g.Path == "")) {
+						if d := commonMembersAgree(x.obj, y.obj, x.key); d != "" {
+							viol("writes_compatible", "unordered fetches %d and %d write different values at %s", f.ID, g.ID, d)
+						}
+					}
+				}
+			}
+		}
+	}
+}
+
+func keysOf(m map[int]bool) []int {
+	var ks []int
+	for k := range m {
+		ks = append(ks, k)
+	}
+	sort.Ints(ks)
+	return ks
+}
+
+// ---------------------------------------------------------------- commands
+
+func treeLine(o *outcome, mode string) string {
+	// (c08 dag (dag (f ID (DEPS))...) (res MODE T T T)) -- the dag is the tree's own leaf list
+	return ""
+}
+
+func (e *env) cfgFor(tier string) {
+	if tier == "thorough" {
+		e.cfg.maxDFS, e.cfg.maxRand = 720, 200
+	} else {
+		e.cfg.maxDFS, e.cfg.maxRand = 24, 24
+	}
+}
+
+func optSets(tier string, which string) []optSet {
+	all := []optSet{{false, false}, {true, true}, {false, true}, {true, false}}
+	switch which {
+	case "all":
+		return all
+	case "":
+		if tier == "thorough" {
+			return all
+		}
+		return all[:2]
+	}
+	var out []optSet
+	for _, p := range strings.Split(which, ";") {
+		var mf, sc int
+		fmt.Sscanf(p, "%d,%d", &mf, &sc)
+		out = append(out, optSet{mf == 1, sc == 1})
+	}
+	return out
+}
+
+func driverLine(tree *e2e.Tree, mode string) string {
+	var fs []string
+	for _, f := range tree.Fetches() {
+		ds := make([]string, len(f.Deps))
+		for i, d := range f.Deps {
+			ds[i] = fmt.Sprint(d)
+		}
+		fs = append(fs, fmt.Sprintf("(f %d (%s))", f.ID, strings.Join(ds, " ")))
+	}
+	t := tree.Sexp()
+	return fmt.Sprintf("(c08 dag (dag %s) (res %s %s %s %s))", strings.Join(fs, " "), mode, t, t, t)
+}
+
+func (e *env) runCases(cases []*fedlab.Case, exact bool, opts []optSet, out, trees *common.Out) (nChecked int) {
+	enc := func(o *outcome) {
+		b, _ := json.Marshal(o)
+		out.Line(string(b))
+	}
+	type key struct {
+		cfg int
+		k   string
+	}
+	var lab *fedlab.Lab
+	var pl *e2e.Planner
+	labKey := ""
+	closeLab := func() {
+		if pl != nil {
+			pl.Close()
+			pl = nil
+		}
+		if lab != nil {
+			lab.Close()
+			lab = nil
+		}
+	}
+	defer closeLab()
+	for _, opt := range opts {
+		for _, c := range cases {
+			k := fmt.Sprintf("%d/%d/%s/%s", c.Seed, c.CfgIdx(), c.Knobs.String(), opt)
+			if k != labKey {
+				closeLab()
+				eo := fedlab.EngineOptions{MultiFetch: opt.MF, ScheduleFetches: opt.Sched}
+				var err error
+				lab, err = fedlab.NewLab(c.Cfg, c.Uni, e.exec, eo)
+				if err != nil {
+					enc(&outcome{Seed: c.Seed, Index: c.Index, Knobs: c.Knobs.String(), Opt: opt.String(), Status: "laberror", Detail: short(err.Error())})
+					lab, labKey = nil, ""
+					continue
+				}
+				pl, err = e2e.NewPlanner(lab, eo)
+				if err != nil {
+					enc(&outcome{Seed: c.Seed, Index: c.Index, Knobs: c.Knobs.String(), Opt: opt.String(), Status: "laberror", Detail: short(err.Error())})
+					closeLab()
+					labKey = ""
+					continue
+				}
+				labKey = k
+			}
+			rnd := common.NewRand(c.Seed*1000003 + uint64(c.Index)*17 + uint64(b2i(opt.MF))*2 + uint64(b2i(opt.Sched)))
+			o := e.checkCase(c, lab, pl, opt, rnd)
+			enc(o)
+			if o.Tree != "" && trees != nil {
+				if t, _, err := pl.PlanWithRaw(c.Op.Text(), c.Op.Name, []byte(c.Op.VariablesJSON())); err == nil {
+					trees.Line(driverLine(t, opt.mode()))
+				}
+			}
+			if o.Status == "checked" {
+				nChecked++
+			}
+		}
+	}
+	return
+}
+
 func main() {
+	if len(os.Args) < 2 {
+		fmt.Println("usage: c08e gen|one|corpus ...")
+		os.Exit(2)
+	}
 	a := common.Args(os.Args[2:])
-	seed := common.ArgU64(a, "seed", 1)
-	n := common.ArgInt(a, "n", 20)
-	knobs := fedlab.ParseKnobs(a["knobs"])
+	tier := a["tier"]
+	if tier == "" {
+		tier = "quick"
+	}
 	exec, err := fedlab.NewExecServer("")
 	if err != nil {
-		panic(err)
+		fmt.Fprintln(os.Stderr, "executor:", err)
+		os.Exit(2)
 	}
 	defer exec.Close()
-	for i := 0; i < n; i++ {
-		c := fedlab.BuildCase(seed, i, 0, knobs, false)
-		for _, mf := range []bool{false, true} {
-			opts := fedlab.EngineOptions{MultiFetch: mf, ScheduleFetches: mf}
-			lab, err := fedlab.NewLab(c.Cfg, c.Uni, exec, opts)
-			if err != nil {
-				fmt.Println("lab error", err)
-				continue
-			}
-			pl, err := e2e.NewPlanner(lab, opts)
-			if err != nil {
-				panic(err)
-			}
-			t, _, err := pl.Plan(c.Op.Text(), c.Op.Name, []byte(c.Op.VariablesJSON()))
-			if err != nil {
-				fmt.Println("plan error", err)
-				continue
-			}
-			res := lab.Run(c.Op.Text(), []byte(c.Op.VariablesJSON()), &fedlab.RunOptions{OperationName: c.Op.Name})
-			fmt.Printf("case %d mf=%v maxpar=%d tree=%s reqs=%d\n", i, mf, t.MaxParallel(), t.Sexp(), len(res.Requests))
-			for _, f := range t.Fetches() {
-				fmt.Printf("   fetch %d %s %s path=%q deps=%v merged=%v q=%s\n", f.ID, f.Kind, f.Subgraph, f.Path, f.Deps, f.Merged, f.Query)
-			}
-			for _, r := range res.Requests {
-				fmt.Printf("   req %d %s q=%s vars=%v\n", r.Index, r.Subgraph, r.Query, r.Variables)
-			}
-			pl.Close()
-			lab.Close()
+	e := &env{exec: exec}
+	e.cfgFor(tier)
+	if v := common.ArgInt(a, "maxdfs", 0); v > 0 {
+		e.cfg.maxDFS = v
+	}
+	if v := common.ArgInt(a, "maxrand", -1); v >= 0 {
+		e.cfg.maxRand = v
+	}
+	e.cfg.settle = time.Duration(common.ArgInt(a, "settle", 1500)) * time.Microsecond
+	e.cfg.verbose = a["v"] == "1"
+	knobs := fedlab.ParseKnobs(a["knobs"])
+	switch os.Args[1] {
+	case "gen":
+		seed := common.ArgU64(a, "seed", 1)
+		n := common.ArgInt(a, "n", 100)
+		from := common.ArgInt(a, "from", 0)
+		out := common.NewOut(a["out"])
+		defer out.Close()
+		var trees *common.Out
+		if a["trees"] != "" {
+			trees = common.NewOut(a["trees"])
+			defer trees.Close()
 		}
+		var cases []*fedlab.Case
+		for i := from; i < from+n; i++ {
+			cases = append(cases, fedlab.BuildCase(seed, i, 0, knobs, false))
+		}
+		t0 := time.Now()
+		nc := e.runCases(cases, false, optSets(tier, a["opts"]), out, trees)
+		fmt.Fprintf(os.Stderr, "c08e gen: %d cases x %d option sets, %d with concurrent requests, %.1fs\n", len(cases), len(optSets(tier, a["opts"])), nc, time.Since(t0).Seconds())
+	case "one":
+		seed := common.ArgU64(a, "seed", 1)
+		idx := common.ArgInt(a, "index", 0)
+		c := fedlab.BuildCase(seed, idx, 0, knobs, a["exact"] == "1")
+		opts := []optSet{{a["mf"] == "1", a["sched"] == "1"}}
+		if a["mf"] == "" && a["sched"] == "" {
+			opts = optSets("thorough", "all")
+		}
+		out := common.NewOut("")
+		trees := common.NewOut("")
+		e.runCases([]*fedlab.Case{c}, true, opts, out, trees)
+		out.Close()
+		trees.Close()
+	case "corpus":
+		// lines: seed TAB index TAB knobs TAB mf,sched
+		b, err := os.ReadFile(a["in"])
+		if err != nil {
+			fmt.Fprintln(os.Stderr, err)
+			os.Exit(2)
+		}
+		out := common.NewOut(a["out"])
+		defer out.Close()
+		var trees *common.Out
+		if a["trees"] != "" {
+			trees = common.NewOut(a["trees"])
+			defer trees.Close()
+		}
+		for _, line := range strings.Split(string(b), "\n") {
+			line = strings.TrimSpace(line)
+			if line == "" || strings.HasPrefix(line, "#") {
+				continue
+			}
+			p := strings.Split(line, "\t")
+			if len(p) < 4 {
+				continue
+			}
+			var seed uint64
+			var idx int
+			fmt.Sscan(p[0], &seed)
+			fmt.Sscan(p[1], &idx)
+			c := fedlab.BuildCase(seed, idx, 0, fedlab.ParseKnobs(p[2]), true)
+			e.runCases([]*fedlab.Case{c}, true, optSets(tier, p[3]), out, trees)
+		}
+	default:
+		fmt.Println("unknown command")
+		os.Exit(2)
 	}
 }
